@@ -70,10 +70,15 @@ def scheme_case(which):
         base["datasets"] = [{"label": f"ds{i + 1}", "group": f"g{i + 1}", "t": t1[: 10 - i], "g": [1.0 + i, 2.0 + i, 3.0 + i], "layout": "mg", "megacomplex": ["m1"],
                              "dseed": 21 + i, "id0": 100 * i, "weight": None, "scale": None, "mc_scale": None} for i in range(3)]
         base["groups"] = {f"g{i + 1}": {"link_clp": False, "residual_function": "variable_projection"} for i in range(3)}
+        # the caller's arrays come in every layout; a model weight acts on the (global, model)-stored one
+        base["datasets"][1]["layout"] = "gm"
+        base["datasets"][2]["layout"] = "mg_f"
+        base["weights"] = [{"datasets": ["ds2"], "value": 0.4, "global_interval": [2.0, 3.0], "model_interval": None}]
     else:
         base["datasets"] = [
             {"label": "ds1", "group": "g1", "t": t1, "g": [1.0, 2.0, 3.0], "layout": "mg", "megacomplex": ["m1"], "dseed": 5, "id0": 0, "weight": None, "scale": None, "mc_scale": None},
             {"label": "ds2", "group": "g1", "t": t1[:8], "g": [2.0, 3.0, 4.0], "layout": "mg", "megacomplex": ["m1"], "dseed": 6, "id0": 100, "weight": "dataset", "scale": "scale.2", "mc_scale": None}]
+        base["datasets"][1]["layout"] = "gm"  # weighted AND stored (global, model): the provider has to work on its own copy
         base["groups"] = {"g1": {"link_clp": True, "residual_function": "variable_projection"}}
         base["parameters"]["scale.2"] = {"value": 1.3}
     base["features"] = {"scheme": which, "link_clp": which == "linked"}
@@ -307,7 +312,9 @@ def judge(case, probe, out, rec, ctxd, raise_exception, fault):
     if len(nfail) != 1:
         rec.violation(f"warning-count:{tag}", ctxd, f"{len(nfail)} 'Optimization failed' warnings")
     got = {p.label: float(p.value) for p in r.optimized_parameters.all()}
-    if not any(all(got[l] == ok[l] for l in got) for ok in probe.ok):
+    # (the roll-back goes through the history, which stores non-negative parameters in log space: exp(log(v)) may be
+    # one ulp off v; finite-difference neighbours differ by 1.5e-8, so 8 eps still identifies the evaluation)
+    if not any(all(abs(got[l] - ok[l]) <= 8 * np.finfo(float).eps * abs(ok[l]) for l in got) for ok in probe.ok):
         rec.violation(f"parameters-not-from-successful-evaluation:{tag}", ctxd,
                       f"reported {got} is none of the {len(probe.ok)} parameter sets that evaluated without error")
     # datasets present and consistent with those parameters
